@@ -55,7 +55,7 @@ def memberCands (s : Str) (ms : List AKey) : List Cand :=
   ms.filterMap fun k => if keyText k.key == s then some (.member k.key, none) else none
 
 /-- the candidates of one segment below one node.  `live a`: `all_anchors` has a node named `a` and
-that node is truthy (`if compare_node:` — finding C07-K5 is the case of an empty merge source). -/
+that node is not `None` (`if compare_node is not None:`; see `liveIn`). -/
 def children (live : Str → Bool) : SNode → Seg → List Cand
   | .seq _ items, (.index, .int i) =>
     if i < 0 then [] else
@@ -79,24 +79,10 @@ def resolve (live : Str → Bool) : SNode → List Seg → List SAddr
 
 /-! ## Merge sources -/
 
-mutual
-/-- the document holds an empty container anchored `a` (a falsy `compare_node`) -/
-def emptyAnchored (a : Str) : SNode → Bool
-  | .scalar _ _ => false
-  | .seq an items => (an == some a && items.isEmpty) || emptyAnchoredL a items
-  | .map an own merged _ =>
-    (an == some a && own.isEmpty && merged.isEmpty) || emptyAnchoredE a own || emptyAnchoredE a merged
-  | .set an ms => an == some a && ms.isEmpty
-def emptyAnchoredL (a : Str) : List SNode → Bool
-  | [] => false
-  | n :: r => emptyAnchored a n || emptyAnchoredL a r
-def emptyAnchoredE (a : Str) : List (AKey × SNode) → Bool
-  | [] => false
-  | (_, n) :: r => emptyAnchored a n || emptyAnchoredE a r
-end
-
-/-- the merge source named `a` is not an empty mapping (the K5 exclusion) -/
-def liveIn (d : SNode) (a : Str) : Bool := !emptyAnchored a d
+/-- `all_anchors` has a node named `a` (`compare_node is not None`).  A merge reference always names an
+anchored mapping of the same document, so for the references of a loaded document this holds; before fix
+87356f5 the test was the truthiness of that node and an empty merge source was not found (C07-K5). -/
+def liveIn (_d : SNode) (_a : Str) : Bool := true
 
 /-! ## The exclusions, along one address -/
 
@@ -107,7 +93,7 @@ def liveIn (d : SNode) (a : Str) : Bool := !emptyAnchored a d
   repeat in the same sequence is the same Python object: `[&a]` denotes both positions), the name is
   expressible;
 * a merge reference is known under an expressible name carried by no other reference, key or value of
-  the mapping, and its source is not empty (K5). -/
+  the mapping. -/
 def okAddr (live : Str → Bool) : SNode → SAddr → Bool
   | _, [] => true
   | .seq _ items, .idx i :: r =>
